@@ -124,7 +124,7 @@ def run_case(sc):
     events = []
     escaped = None
     import os as _os
-    saved_env = {k: _os.environ.get(k) for k in ("HTTP_PROXY", "HTTPS_PROXY")}
+    saved_env = {k: _os.environ.get(k) for k in ("HTTP_PROXY", "HTTPS_PROXY", "NO_PROXY", "no_proxy")}
     for k in saved_env:
         _os.environ.pop(k, None)
     for k, v in (sc.get("env") or {}).items():
@@ -211,6 +211,10 @@ def gen(rnd):
     elif rnd.random() < 0.5:
         # an explicit proxies argument -- also an empty one -- overrides whatever the environment says
         env = {"HTTP_PROXY": "http://env.proxy.test:3128", "HTTPS_PROXY": "http://env.proxy.test:3128"}
+    if rnd.random() < 0.3:
+        # the process environment also carries an exclusion list (for other software): the proxy configured for this WebSocket
+        # is used all the same, whether the list names the target or not
+        env[rnd.choice(["no_proxy", "NO_PROXY"])] = rnd.choice(["*", host, "." + host.split(".", 1)[1], "localhost,127.0.0.1," + host, "unrelated.example"])
     direct = pshape in ("none", "empty", "other_scheme_only")
     # the proxy's reply
     rk = rnd.choice(["200", "200", "200", "status", "status_odd", "unterminated_eof", "oversize", "oversize_lines", "empty", "oserr", "exc", "garbage", "connect_refused", "send_fault",
@@ -477,7 +481,7 @@ def run(rep, info, model, tier, seed):
     if dis and not rep.violations:
         rep.broken("correspondence C19: model and implementation disagree on %d cases; first %r" % (dis, first))
     rep.families.append(dict(name="C19:proxy-replies", cases=n, disagreements=dis,
-                             rule="real WebsocketSession._connect/_connect_proxy against a fake socket module: proxy URL shapes (default/explicit port, credentials with/without password, https proxy, empty/None/absent entry, entry for the other scheme only, no proxies argument with HTTP_PROXY/HTTPS_PROXY in the environment, an explicit -- also empty -- argument against a populated environment) x ws/wss targets x replies (200, other statuses, a 1xx block followed by a 200 block, terminated blocks of 16380..16392 bytes, unterminated+EOF, oversize, empty, socket error / exception at any recv, garbage, refused connect, failing CONNECT write) in every segmentation; all socket operations are logged and judged"))
+                             rule="real WebsocketSession._connect/_connect_proxy against a fake socket module: proxy URL shapes (default/explicit port, credentials with/without password, https proxy, empty/None/absent entry, entry for the other scheme only, no proxies argument with HTTP_PROXY/HTTPS_PROXY in the environment, an explicit -- also empty -- argument against a populated environment, a no_proxy list in the environment that names the target or not) x ws/wss targets x replies (200, other statuses, a 1xx block followed by a 200 block, terminated blocks of 16380..16392 bytes, unterminated+EOF, oversize, empty, socket error / exception at any recv, garbage, refused connect, failing CONNECT write) in every segmentation; all socket operations are logged and judged"))
     if not proof_ok and not rep.violations:
         rep.broken("proof obligation props/C19.v no longer checks: %s" % (rep.coq_failure,))
 
